@@ -64,6 +64,14 @@ class PathEnd(Exception):
     """precondition does not hold on this path"""
 
 
+CURRENT_VC = None
+
+
+def current_vc():
+    """the verification context of the path being explored (for stubs that need fresh atoms / ghost records)"""
+    return CURRENT_VC
+
+
 class _StubCtx:
     def __init__(self, names):
         self.names = names
@@ -107,6 +115,8 @@ class SymVC:
         self.log = []  # (clause, backend, seconds)
         self.refuted = []  # (clause, witness)
         self.undecided = []
+        self.havoc = 0
+        self.ghost = {}  # per-path ghost records of stubs (e.g. encoder outputs seen so far)
 
     # ---- inputs
     def _reg(self, name, v):
@@ -144,6 +154,14 @@ class SymVC:
         v = self.uint(width, name)
         self.assume(self.or_(*[self.eq(v, x) for x in values]))
         return v
+
+    def havoc_bits(self, n, endian="big"):
+        """fresh unconstrained bits that are NOT inputs: the result of an over-approximating callee contract.  A refutation
+        whose counter-model needs particular values of them cannot be replayed and is reported as undecided."""
+        from .values import fresh_bit, SBits
+
+        self.havoc += 1
+        return SBits.of([fresh_bit("havoc%d_%d" % (self.havoc, i)) for i in range(n)], endian)
 
     def nat(self, name, lo=0):
         """unbounded integer >= lo (state-machine counters)"""
@@ -285,7 +303,10 @@ class SymVC:
         from . import api
 
         env = dict(env)
-        return {k: _jsonable(api.concretise(v, env)) for k, v in self.inputs.items()}
+        w = {k: _jsonable(api.concretise(v, env)) for k, v in self.inputs.items()}
+        if self.havoc:
+            w["__havoc__"] = True
+        return w
 
     def path_model(self):
         """a model of the current path condition (for exceptions that the contract does not allow)"""
@@ -320,7 +341,9 @@ def verify_job(cname, shape, max_paths=20000):
     vcs = []
 
     def once():
+        global CURRENT_VC
         vc = SymVC(cname, shape)
+        CURRENT_VC = vc
         vcs.append(vc)
         with _StubCtx(fn.stubs) as sc:
             vc.stubctx = sc
